@@ -333,18 +333,6 @@ func (e *Enc) header() string {
 	b.WriteString("(set-logic ALL)\n")
 	is := e.idxSort()
 	fmt.Fprintf(&b, "(declare-datatypes ((Slice 0)) (((mkSlice (s_arr Int) (s_off %s) (s_len %s) (s_cap %s)))))\n", is, is, is)
-	for _, k := range e.structOrder {
-		si := e.structs[k]
-		if len(si.fields) == 0 {
-			fmt.Fprintf(&b, "(declare-datatypes ((%s 0)) (((%s))))\n", si.sort, si.ctor)
-			continue
-		}
-		var fs []string
-		for i, f := range si.fields {
-			fs = append(fs, fmt.Sprintf("(%s %s)", f, si.fsorts[i]))
-		}
-		fmt.Fprintf(&b, "(declare-datatypes ((%s 0)) (((%s %s))))\n", si.sort, si.ctor, strings.Join(fs, " "))
-	}
 	// interface values: (tag, ref) plus one payload field per boxed (non-pointer) dynamic sort
 	var bk []string
 	for k := range e.boxes {
@@ -367,6 +355,18 @@ func (e *Enc) header() string {
 		zs := append([]string{}, zeros...)
 		zs[i] = "x"
 		fmt.Fprintf(&b, "(define-fun box_%s ((t Int) (x %s)) Iface (mkIface t 0 %s))\n", k, e.boxes[k], strings.Join(zs, " "))
+	}
+	for _, k := range e.structOrder {
+		si := e.structs[k]
+		if len(si.fields) == 0 {
+			fmt.Fprintf(&b, "(declare-datatypes ((%s 0)) (((%s))))\n", si.sort, si.ctor)
+			continue
+		}
+		var fs []string
+		for i, f := range si.fields {
+			fs = append(fs, fmt.Sprintf("(%s %s)", f, si.fsorts[i]))
+		}
+		fmt.Fprintf(&b, "(declare-datatypes ((%s 0)) (((%s %s))))\n", si.sort, si.ctor, strings.Join(fs, " "))
 	}
 	// implements predicates
 	var ik []string
